@@ -265,6 +265,7 @@ def verify_function(qualname, contract, schema, timeout_ms=10000, contracts=None
             raise CheckerError("requires of %s is unsatisfiable" % qualname)
         it.spec_mode = False
         it.definedness = True
+        entry = (list(it.facts), list(it.pc), list(it.qfacts))
         old_heap = it.heap.copy()
         old_env = dict(env)
         it.heap.touched = set()
@@ -288,11 +289,11 @@ def verify_function(qualname, contract, schema, timeout_ms=10000, contracts=None
         pid = "p%d" % path_no[0]
         it.oblig_prefix = ""
         try:
-            return finish(it, out, pid, old_heap, old_env)
+            return finish(it, out, pid, old_heap, old_env, entry)
         except Infeasible:
             raise CheckerError("path %s of %s became infeasible while its contract clauses were evaluated" % (pid, qualname))
 
-    def finish(it, out, pid, old_heap, old_env):
+    def finish(it, out, pid, old_heap, old_env, entry_state):
         # ---- postconditions
         it.spec_mode = True
         it.definedness = False
@@ -345,6 +346,7 @@ def verify_function(qualname, contract, schema, timeout_ms=10000, contracts=None
         rep.assumptions |= it.assumptions_log
         for ob in it.obligations:
             ob.replay_ctx = (fi, old_env, it._mro)
+            ob.entry = entry_state
         return it.obligations, out
 
     try:
@@ -749,3 +751,60 @@ def _try_cvc5(solver, timeout_ms):
     except Exception:
         pass
     return None
+
+
+def entry_model(ob, max_len=3, seed=0):
+    """a model of the function-entry assumptions (facts + requires), with the quantified requires instantiated on the first
+    indices and list lengths capped: the starting point of the bounded counterexample search.  Shapes (list lengths, row
+    counts) and the classes of list elements are randomised per seed so that different structures are explored."""
+    import random
+
+    rng = random.Random(seed)
+    facts, pc, qfacts = ob.entry
+    s = z3.Solver()
+    s.set("timeout", 10000)
+    s.set("random_seed", seed)
+    base = list(facts) + list(pc)
+    idx = [z3.IntVal(i) for i in range(max_len + 1)]
+    for q in qfacts:
+        base += q.instances(idx)
+    s.add(*base)
+    lens = {}
+    owners = {}
+    for t in base:
+        for x in core.uninterp_apps(t):
+            nm = x.decl().name()
+            if nm.startswith("len(") and x.num_args() == 1:
+                lens[x.get_id()] = x
+                owners[(nm[4:-1], x.arg(0).get_id())] = (nm[4:-1], x.arg(0))
+            elif (nm.startswith("h.rows(") or nm.startswith("h.len(")) and x.num_args() == 1:
+                lens[x.get_id()] = x
+    for x in lens.values():
+        s.add(x >= 0, x <= max_len)
+    s.add(*core.list_axiom_instances(base))
+    # random shape / class preferences (dropped if they conflict with the precondition)
+    prefs = []
+    for x in lens.values():
+        prefs.append(x == rng.randint(1, max_len))
+    for field, owner in owners.values():
+        classes = sorted(core.LIST_ELEM_CLASSES.get(field, []))
+        if not classes or field not in core.LIST_FUNCS:
+            continue
+        lelem = core.LIST_FUNCS[field][1]
+        for i in range(max_len):
+            prefs.append(core.typeof(lelem(owner, z3.IntVal(i))) == core.CLASSES.ids[rng.choice(classes)])
+    for attempt in range(6):
+        s.push()
+        s.add(*prefs)
+        s.add(*core.list_axiom_instances(prefs))
+        r = s.check()
+        if r == z3.sat:
+            m = s.model()
+            s.pop()
+            return m
+        s.pop()
+        rng.shuffle(prefs)
+        prefs = prefs[: max(0, len(prefs) * 2 // 3)]
+    if s.check() != z3.sat:
+        return None
+    return s.model()
